@@ -202,14 +202,16 @@ LongSpecs ==
      [d |-> 2, T |-> 70,  N |-> 10,  vs |-> {"log", "s4"},        direct |-> FALSE],
      [d |-> 2, T |-> 260, N |-> 2,   vs |-> {"lin", "log"},       direct |-> TRUE],
      [d |-> 2, T |-> 3,   N |-> 300, vs |-> {"lin", "log", "s4"}, direct |-> FALSE],
-     [d |-> 3, T |-> 2,   N |-> 150, vs |-> {"lin", "s4"},        direct |-> FALSE] >>
+     [d |-> 3, T |-> 2,   N |-> 150, vs |-> {"lin", "s4"},        direct |-> FALSE],
+     \* beyond 4096 particles, cage-relative (neighbour lists of the origin frame): block-wise processing of the particles
+     [d |-> 2, T |-> 2,   N |-> 4500, vs |-> {"lin", "log"},      direct |-> FALSE] >>
   \o (IF Tier = "quick" THEN << >>
       ELSE << [d |-> 3, T |-> 264, N |-> 3,   vs |-> {"lin", "log"}, direct |-> TRUE],
               [d |-> 2, T |-> 64,  N |-> 5,   vs |-> {"lin", "s4"},  direct |-> FALSE],
               [d |-> 3, T |-> 4,   N |-> 260, vs |-> {"lin", "log", "s4"}, direct |-> FALSE] >>)
 LongInputs ==
   { (LET sp == LongSpecs[j]  z == j + SEED + fam IN
-     WithVariants(MkCase(sp.d, sp.T, sp.N, 1 + (z % 3), 1 + ((z \div 3) % 2), z % 2, (z \div 2) % 2, fam, "long", << >>),
+     WithVariants(MkCase(sp.d, sp.T, sp.N, 1 + (z % 3), 1 + ((z \div 3) % 2), z % 2, IF sp.N >= 4000 THEN 1 ELSE (z \div 2) % 2, fam, "long", << >>),
                   sp.vs, sp.direct)) :
       j \in 1..Len(LongSpecs), fam \in 1..(IF Tier = "quick" THEN 1 ELSE 3) }
 ExtInputs == TriInputs \cup SessInputs \cup LongInputs
